@@ -478,6 +478,18 @@ CLAIMED["C18"]["text"] += (" Round 7: the PEAK value field is exact below FLT_MI
                             "maxima (all six containers, both encodings, doubles between two subnormal floats, FLT_MIN as boundary) run on every seed; nothing below FLT_MIN is waived any more.")
 
 
+CLAIMED["C09"]["text"] += (" Round 7: KF-C09-CHMAP-REFUSED-KEPT is repaired (a refused SFC_SET_CHANNEL_MAP_INFO left the refused map on a handle that had none): "
+                          "`refused_setter_no_effect` now holds for all five metadata setters (SfProps/C09Chmap.lean; rule before: chmap_refused_but_kept_old_rule); the container's verdict "
+                          "(wavlike_gen_channel_mask / aiff_caf_find_channel_layout_tag / no hook) is Lean: Sf.ChmapVerdict, run against the library by `sfmodel chmap` (vlib/chmapfix.py: every map of valid ids "
+                          "for 1 and 2 channels on WAV / AIFF / AU, seeded histories on 19 containers, GET on the write handle and on the re-opened file).")
+CLAIMED["C04"]["text"] += (" Round 7: KF-PVF-TINY-FILE is repaired (guess_file_type probes what a file shorter than 12 bytes has, zero-padded): pvf_reopen_info / pvf_snapshot_valid hold for EVERY session "
+                          "(pvf_reopen_holds : pvf_reopen_full), the 12-byte rule is kept as parseProbe12 (pvf_tiny_not_reopened_old_rule, pvf_reopen_probe12_old_rule_fails); Sf.Small2.guessProbe = guess on files of at least 12 bytes (guessProbe_eq_guess).")
+CLAIMED["C16"]["text"] += " Round 7: a channel map the container refuses is freed inside the call and moves no cell of the ledger (`setchanmap 0`; the verdict of every scenario's map comes from Sf.ChmapVerdict)."
+CLAIMED["C17"]["text"] += " Round 7: the SFC_SET_CHANNEL_MAP_INFO arm (`Sf.Command.chmapSet`) computes the container's verdict from the caller's ints: the return value is exact (0 or 1) and a refused call is pure."
+
+CLAIMED["C04"]["text"] += " Short-probe stream (vlib/shortprobe.py, `sfmodel probe`): every marker of guess_file_type cut / zero- / garbage-extended to every length 1..11 (832 files) against Sf.Small2.guessProbe."
+CLAIMED["C09"]["text"] += " Residual recorded: KF-C09-CHMAP-REMASK (foreign RDWR WAVEX whose mask has more bits than channels: the re-derived mask drops the spare bits; remask_witness)."
+
 def main():
     checks = []
     for p in PROPS:
